@@ -23,6 +23,16 @@ STRENGTHENED = {
     'C08-B2': 'round 2; initially missed by C08: the out_like template now carries raised flags of its own past',
     'C13-A2': 'round 2; initially a canary failure only: C13 has a history part (operator used, object widened by resize / like=, operator used again)',
     'C16-B2': 'round 2; initially missed by C16: conversions are also taken on derived objects (an element view x[i], a keep-mode shift by 0), and bool() / float() / int() call the methods of the lifted object itself',
+    'C03-A2': 'round 2; initially missed by C03: a re-formatting part (wrapping object resized with a sign flip / wider word, three spellings) was added; C10 catches it as well',
+    'C06-B2': 'round 2; initially missed by C06: values supplied as fixed-point objects held in a larger-than-minimal, re-formatted format',
+    'C09-A2': 'round 2; initially missed by C09 (fresh operands never have an integer value type with fractional bits): integer-born aged operands (AGE route int_born); C16 catches it as well',
+    'C09-B2': 'round 2; not caught by C09 (needs a class-level template or like= with sign, n_int and n_frac together, which the division harness never uses); caught by C02 once the requested sizes of the sign+n_int+n_frac combinations are asserted',
+    'C11-A2': 'round 2; initially missed by C11 (caught by C20 containers): the same rendered list is now fed twice (value mode, then raw mode)',
+    'C12-B2': 'round 2; initially missed by C12: dtype string together with a like= template, and get_dtype asked in both notations in sequence',
+    'C17-B2': 'round 2; initially missed by C17: scaled objects derived without a store (element view, flatten, transpose, like=) and then re-formatted',
+    'C18-A2': 'round 2; initially missed by C18: the extended-precision indicator is also read on like=, raw like=, element views, templates and deepcopies',
+    'C18-B2': 'round 2; not caught by C18 (sharing of configuration/status is not a C18 statement); caught by C20 (xor / or routes added)',
+    'C20-A2': 'round 2; initially missed by C20: constructor route with config=<another object\'s Config>',
     'C18-A': 'initially missed by the quick tier of C18 (one randomly chosen signedness for the 64-bit raw-string row): both signednesses are now always run',
 }
 def main():
